@@ -16,8 +16,9 @@ def U(ident, **kw):
 
 
 class DSpec:
-    def __init__(self, spec, dname=None, vis=None, dderives=(), into_disc=True, extra=(), checks=()):
+    def __init__(self, spec, dname=None, vis=None, dderives=(), into_disc=True, extra=(), checks=(), pre=""):
         self.spec, self.dname, self.vis, self.dderives, self.into_disc, self.extra, self.checks = spec, dname, vis, list(dderives), into_disc, list(extra), set(checks)
+        self.pre = pre            # items the discriminant expressions refer to (constants)
 
 
 def pivot():
@@ -37,6 +38,23 @@ def pivot():
     S.append(DSpec(EnumSpec("U8", [U("A", disc="200", disc_val=200), U("B"), U("C", disc="1 << 3", disc_val=8), U("D", fields=[Field("u32")])],
                             repr="u8", note="repr(u8), expression-valued discriminant"), dname="U8Kind", dderives=["strum::EnumIter", "PartialOrd"],
                    checks={"iter", "ord", "layout"}))
+    S.append(DSpec(EnumSpec("ViaMacro", [U("Ctrl", fields=[Field("u8")], disc="$base * 2", disc_val=6), U("Next"), U("Status", disc="$base * 4 + $off", disc_val=15),
+                                         U("Lit", fields=[Field("u8", name="x")], named=True, disc="$lit", disc_val=40)],
+                            repr="u16", macro_args=[("base", "expr", "1 + 2"), ("off", "expr", "7 - 4"), ("lit", "literal", "40")],
+                            note="the enum is the body of a macro_rules! macro; discriminants are built from $x:expr fragments (operator precedence of the substituted expression)"),
+                   dderives=["strum::EnumIter"], checks={"iter", "layout"}))
+    S.append(DSpec(EnumSpec("StaleConst", [U("Hello", disc="HELLO", disc_val=0x40), U("Ack", fields=[Field("u16")], disc="1", disc_val=1),
+                                           U("Data", fields=[Field("u8", name="x")], named=True, disc="2", disc_val=2), U("Tail")],
+                            repr="u8", note="a constant-valued discriminant followed by literals that restart the count at 1, 2"), pre="pub const HELLO: u8 = 0x40;\n",
+                   checks={"layout"}))
+    S.append(DSpec(EnumSpec("StaleExpr", [U("A", disc="1 << 4", disc_val=16), U("B", disc="1", disc_val=1), U("C", disc="2", disc_val=2), U("D", fields=[Field("u8")]),
+                                          U("E", disc="42 + 100", disc_val=142), U("F", disc="5", disc_val=5), U("G", disc="0", disc_val=0)],
+                            repr="i16", note="expression-valued discriminants followed by small literals equal to the variant's position / position since the expression"),
+                   dderives=["strum::EnumIter"], checks={"iter", "layout"}))
+    S.append(DSpec(EnumSpec("PassRepr", [U("Nop"), U("Push", fields=[Field("u8")]), U("Pop")], note="strum_discriminants(repr(u16)) with NO derive(..) request: the pass-through must still reach the generated enum"),
+                   dname="OpCode", extra=["#[strum_discriminants(repr(u16))]"], checks={"size2"}))
+    S.append(DSpec(EnumSpec("PassCfg", [U("A", fields=[Field("bool")]), U("B")], note="only pass-through attributes (cfg_attr(all(), repr(u32)), allow(..)), no name/vis/derive"),
+                   extra=["#[strum_discriminants(cfg_attr(all(), repr(u32)))]", "#[strum_discriminants(allow(dead_code))]"], checks={"size4"}))
     S.append(DSpec(EnumSpec("ReprC", [U("A"), U("B", fields=[Field("u8")]), U("C", fields=[Field("u32", name="x")], named=True)], repr="C",
                             note="#[repr(C)] (no primitive integer): the discriminant enum must be repr(C) too (C-enum size)"),
                    checks={"layout_c"}))
@@ -88,6 +106,12 @@ def random_specs(rng, n):
                 if cand:
                     cur = cand[0]
                     v.disc, v.disc_val = str(cur), cur
+                    form = rng.random()
+                    if cur >= 2 and form < 0.25:
+                        a = rng.randint(1, cur - 1)
+                        v.disc = "%d + %d" % (a, cur - a)            # expression-valued, same value
+                    elif cur > 0 and cur & (cur - 1) == 0 and form < 0.6:
+                        v.disc = "1 << %d" % (cur.bit_length() - 1)
             if R is None and v.fields and v.disc is not None:
                 v.disc, v.disc_val = None, None   # explicit discriminants on data-carrying variants need a primitive repr
                 cur = 0 if prev is None else prev + 1
@@ -118,13 +142,12 @@ def program(ds: DSpec, pname, tier):
         items.append("vis(%s)" % ds.vis)
     if ds.dderives:
         items.append("derive(%s)" % ", ".join(ds.dderives))
-    if items:
-        spec.raw_attrs = ["#[strum_discriminants(%s)]" % ", ".join(items)] + list(ds.extra)
+    spec.raw_attrs = (["#[strum_discriminants(%s)]" % ", ".join(items)] if items else []) + list(ds.extra)
     E = spec.ty()
     R = spec.repr if spec.repr in INT_TYPES else "isize"
     nv = len(spec.variants)
     discs = discriminants(spec)
-    src = render_enum(spec) + "\n"
+    src = ds.pre + render_enum(spec) + "\n"
     helper = make_fn(spec, None, "make") + "\n" + variant_index_fn(spec) + "\n"
     helper += "pub fn disc_tbl(k: usize) -> %s { match k { %s _ => 0 } }\n" % (R, " ".join("%d => %s," % (i, int_lit(d, R)) for i, d in enumerate(discs)))
     helper += bytes_table_fn("ident_tbl", [v.ident for v in spec.variants]) + "\n"
@@ -153,6 +176,9 @@ def program(ds: DSpec, pname, tier):
         lines.append('    assert!(tag == d_ref as %s, "the discriminant value differs from the real tag of the value");' % R)
     if "size1" in ds.checks:
         lines.append('    assert!(core::mem::size_of::<%s>() == 1, "the integer #[repr] given in a second attribute was not mirrored");' % D)
+    for nb in (2, 4):
+        if "size%d" % nb in ds.checks:
+            lines.append('    assert!(core::mem::size_of::<%s>() == %d, "a #[repr] requested through strum_discriminants(..) did not reach the discriminant enum");' % (D, nb))
     if "docpass" in ds.checks:
         lines.append("    { use strum::EnumMessage;")
         lines.append('      assert!(%s::Rect.get_documentation() == Some("Kind tag for rectangles"), "variant-level strum_discriminants(doc = ..) had no effect");' % D)
